@@ -78,6 +78,7 @@ type Oblig struct {
 	Budget  int      // >0: single race with this timeout (known findings)
 	PkgPath string   // package of the function (frame obligations)
 	Bytes   int
+	uses    map[string]bool // non-nil: labelled invariant assumptions outside this set are left out
 }
 
 type UnsupportedErr struct{ Msg string }
@@ -129,6 +130,9 @@ type FnGen struct {
 	nEpoch    int
 	ghostSort map[string]string
 	ghostType map[string]types.Type
+	assumeTag map[int]string  // assumption index -> label of the loop invariant it states
+	curTag    string
+	curUses   map[string]bool
 	implPreds []implPred
 	dry       bool
 	phiOverride map[*ssa.Phi]Val
@@ -212,10 +216,65 @@ func (g *FnGen) oblige(kind, name, goal, clause string, pos token.Pos) *Oblig {
 		p := g.prog.fset.Position(pos)
 		o.Pos = fmt.Sprintf("%s:%d", relPath(p.Filename), p.Line)
 	}
+	if g.curUses != nil {
+		o.uses = g.curUses
+	}
 	g.obls = append(g.obls, o)
 	// assert-then-assume
+	n0 := len(g.assumes)
 	g.assumeHere(goal)
+	if g.curTag != "" && len(g.assumes) > n0 {
+		g.tagAssume(len(g.assumes)-1, g.curTag)
+	}
 	return o
+}
+
+func (g *FnGen) tagAssume(i int, tag string) {
+	if g.dry {
+		return // the dry run works on a clone that shares this map
+	}
+	if g.assumeTag == nil {
+		g.assumeTag = map[int]string{}
+	}
+	g.assumeTag[i] = tag
+}
+
+// shiftTags: k assumptions were prepended
+func (g *FnGen) shiftTags(k int) {
+	if g.dry || len(g.assumeTag) == 0 {
+		return
+	}
+	n := map[int]string{}
+	for i, t := range g.assumeTag {
+		n[i+k] = t
+	}
+	g.assumeTag = n
+}
+
+// setUses: hypotheses selection of the clause being checked (nil = all)
+func (g *FnGen) setUses(c Clause) {
+	g.curUses = nil
+	if c.HasUses {
+		g.curUses = map[string]bool{c.Label: true}
+		for _, u := range c.Uses {
+			g.curUses[u] = true
+		}
+	}
+}
+
+// assumesFor: the assumptions in force at the obligation, minus labelled invariants its clause does not use.
+func (g *FnGen) assumesFor(o *Oblig) []string {
+	if o.uses == nil {
+		return g.assumes[:o.nAssume]
+	}
+	var out []string
+	for i, a := range g.assumes[:o.nAssume] {
+		if t, ok := g.assumeTag[i]; ok && !o.uses[t] {
+			continue
+		}
+		out = append(out, a)
+	}
+	return out
 }
 
 func (g *FnGen) ordName(kind string) string {
@@ -1226,7 +1285,7 @@ func (g *FnGen) slicedScript(o *Oblig) string {
 		return true
 	}
 	var kept []string
-	for _, a := range g.assumes[:o.nAssume] {
+	for _, a := range g.assumesFor(o) {
 		if keep(a) {
 			kept = append(kept, a)
 		}
@@ -1282,7 +1341,7 @@ func (g *FnGen) script(o *Oblig) string {
 		b.WriteString(d)
 		b.WriteByte('\n')
 	}
-	for _, a := range g.assumes[:o.nAssume] {
+	for _, a := range g.assumesFor(o) {
 		b.WriteString("(assert ")
 		b.WriteString(a)
 		b.WriteString(")\n")
